@@ -50,6 +50,8 @@ async def scenario(loop, plan, out):
 
     V = plan["v"]
     stack = Stack(loop, V).install()
+    # "merge": frames the NCP writes at the same instant reach the host in ONE read (an RSTACK and the ERROR right behind it)
+    stack.line.merge_reads = bool(plan.get("merge"))
 
     def arm_faults():
         # line faults apply to the workload only, never to the preparatory bring-up
@@ -266,6 +268,8 @@ def check(plan) -> Result:
         r.cls("application-attached-after-first-announcement")
     if plan.get("giveup") is not None:
         r.cls("callers-give-up")
+    if plan.get("merge"):
+        r.cls("announcement-in-the-same-read-as-the-preceding-frame")
     if plan.get("at") is None and plan.get("at_time") is None:
         # fault-free reference run
         if out["resets"]:
@@ -360,6 +364,8 @@ def plans(draw):
         plan["stale"] = draw(st.sampled_from(["timeout", "cancel"]))
     if draw(st.integers(0, 3)) == 0:
         plan["giveup"] = draw(st.sampled_from([0.5, 2.0, 5.0, 11.0]))
+    if draw(st.integers(0, 3)) == 0:
+        plan["merge"] = True
     if draw(st.integers(0, 2)) == 0:
         plan["noise"] = draw(st.lists(st.sampled_from([0x13, 0x11]), min_size=1, max_size=3))
     if draw(st.integers(0, 2)) == 0:
@@ -377,7 +383,7 @@ def run(ctx):
     vs = [4, 8] if quick else list(range(4, 15))
     jobs = [(v, wl, noise, {}) for v in vs for wl in WORKLOADS for noise in (None, [0x13], [0x13, 0x11])]
     jobs += [(v, wl, None, extra) for v in vs for wl in ("idle", "one", "queue", "reset", "reset+cmds")
-             for extra in ({"stale": "timeout"}, {"stale": "cancel"}, {"giveup": 2.0}, {"giveup": 5.0, "stale": "cancel"}, {"late_app": True})]
+             for extra in ({"stale": "timeout"}, {"stale": "cancel"}, {"giveup": 2.0}, {"giveup": 5.0, "stale": "cancel"}, {"late_app": True}, {"merge": True})]
     ctx.parallel(_worker_enum, jobs)
     ctx.exhaustive["every wire event x before/after x 8 failure kinds for the listed workloads and versions"] = True
     ctx.parallel(_worker, [300] * 16 if quick else [5000] * 16)
